@@ -142,5 +142,8 @@ pub fn run(ctx: &Ctx) -> Report {
             }
         }
     }
+    if ctx.variant == "v3" && ctx.only_panel.as_deref().map(|p| p == "epd12in48b_v2").unwrap_or(true) {
+        crate::props::p12checks::c18(&mut rep);
+    }
     rep
 }
